@@ -38,7 +38,7 @@ CLAIMED = {
             "DESIGN.md §6 C13"),
     "C11": ("exploration",
             "deterministic simulation of operation histories against a Vec model, with panics injected into user callbacks (Hash/Eq/Ord/closures) at the n-th invocation inside an operation; complete enumeration of short histories around the index threshold",
-            "Operation histories over SmallMap (plain and pre-hashed API), SmallSet, OrderedMap/Set, SortedMap/Set/Vec, UnorderedMap/Set and Vec2 are executed against a Vec<(K,V)> model; keys carry simulator-chosen adversarial hashes so collisions are the norm; a panic is injected into Hash/Eq/Ord/retain/sort_by/or_insert_with/and_modify callbacks inside about one operation in nine and the container must then hold exactly what a plain Vec holds after the same interrupted operation (std Vec semantics: retain keeps the entries not yet visited and drops the one whose predicate panicked, sort keeps every entry); after every step every lookup by key, index and position for every key of the universe is compared. All histories up to length 4 (quick) / 5 (thorough) over a 20-operation alphabet on base maps of 15-18 entries are enumerated completely; random histories up to 220 operations cross the 16-entry threshold repeatedly; tracked values detect double drops and leaks; a second fault kind lets the n-th destructor call panic inside clear / truncate / retain of a Vec2 and inside SmallMap::clear, with the same operation on a plain Vec of pairs as the reference.",
+            "Operation histories over SmallMap (plain and pre-hashed API), SmallSet, OrderedMap/Set, SortedMap/Set/Vec, UnorderedMap/Set and Vec2 are executed against a Vec<(K,V)> model; keys carry simulator-chosen adversarial hashes so collisions are the norm; a panic is injected into Hash/Eq/Ord/retain/sort_by/or_insert_with/and_modify callbacks inside about one operation in nine and the container must then hold exactly what a plain Vec holds after the same interrupted operation (std Vec semantics: retain keeps the entries not yet visited and drops the one whose predicate panicked, sort keeps every entry); after every step every lookup by key, index and position for every key of the universe is compared. All histories up to length 4 (quick) / 5 (thorough) over a 20-operation alphabet on base maps of 15-18 entries are enumerated completely; random histories up to 220 operations cross the 16-entry threshold repeatedly; tracked values detect double drops and leaks; a second fault kind lets the n-th destructor call panic inside clear / truncate / retain of a Vec2 and inside SmallMap::clear, with the same operation on a plain Vec of pairs as the reference; a third one lets the n-th clone of a value panic inside Vec2::clone, SmallMap::clone and Vec2::extend (source untouched, nothing dropped twice, extend holds the old entries plus a prefix of the new).",
             "Exhaustive only inside the stated short-history sub-space; the rest is seeded sampling. After a panic inside Hash/Eq of a key during an insert the entry may or may not be present (both accepted), nothing else is relaxed.",
             "DESIGN.md §6 C11"),
     "C20": ("exploration",
